@@ -37,7 +37,7 @@ ASSUMPTIONS = {"C05": [
 T0 = 1_600_000_000
 CODEC_NAME = {0: "none", 1: "gzip", 2: "snappy", 3: "lz4", 4: "zstd"}
 MAX_REPORTED = 10
-JVM_OPTS = "-XX:ActiveProcessorCount=2 -Xmx3g"
+JVM_OPTS = "-XX:ActiveProcessorCount=2 -Xmx2g -Xss256m"
 P_CLAUSES = ["P_Accepted", "P_Format", "P_Lengths", "P_Crc", "P_Count", "P_Order", "P_KeyValue", "P_Headers", "P_Timestamp"]
 F_CLAUSES = ["F_NoError", "F_Records", "F_Content", "F_Timestamp", "F_ControlHidden", "F_CorruptHidden"]
 POOL_CLAUSES = ["Pool_Intact", "Pool_NoError"]
@@ -83,7 +83,10 @@ TS = {"Z": {"zero": True, "s": 0, "ns": 0},
       "B": {"zero": False, "s": 1, "ns": 2_100_000},      # ...002.1 ms
       "C": {"zero": False, "s": 1, "ns": 0},              # whole millisecond
       "D": {"zero": False, "s": 1, "ns": 999_999},        # ...000.999999 ms
-      "E": {"zero": False, "s": 1 + 30 * 86400, "ns": 0}}  # 30 days later, whole millisecond
+      "E": {"zero": False, "s": 1 + 30 * 86400, "ns": 0},  # 30 days later, whole millisecond
+      # distances from "C" at the boundaries of the varint encodings of the timestamp delta
+      "F": {"zero": False, "s": 1, "ns": 63_000_000}, "G": {"zero": False, "s": 1, "ns": 64_000_000}, "H": {"zero": False, "s": 1, "ns": 65_000_000},
+      "I": {"zero": False, "s": 9, "ns": 191_000_000}, "J": {"zero": False, "s": 9, "ns": 192_000_000}}   # 8191 / 8192 ms after C
 TS_PAIRS = ["AB", "BA", "CC", "ZA", "AZ", "DC", "AD", "CA"]
 
 
@@ -132,6 +135,16 @@ def produce_lists(tier, rng, full, fmt):
         out.append(("ts3-s%d-%s" % (k, "".join(tsn)), [prec(plain, t, []) for t in tsn], ts_tags(tsn)))
     for tp in ("CE", "EC"):
         out.append(("tsfar-%s" % tp, [prec(plain, tp[0], []), prec(plain, tp[1], [])], ts_tags(tp)))
+    # lengths, deltas and counts at the boundaries of the varint encodings (1|2 bytes at 64, 2|3 bytes at 8192)
+    for n in ((63, 64, 65, 8191, 8192, 8193) if full else (64, 8192)):
+        out.append(("vlen-%d" % n, [prec((lit("k"), rep(65, n)), "C", []), prec(plain, "C", [])], ["boundary"]))
+        out.append(("klen-%d" % n, [prec((rep(66, n), lit("v")), "C", []), prec(plain, "C", [])], ["boundary"]))
+        if fmt == 2:
+            out.append(("hlen-%d" % n, [prec(plain, "C", [hdr("a", rep(67, n))]), prec(plain, "C", [hdr("bb", rep(68, n + 1))])], ["boundary"]))
+    for tp in ("CF", "CG", "CH", "CI", "CJ", "GC", "JC"):
+        out.append(("tsb-%s" % tp, [prec(plain, tp[0], []), prec(plain, tp[1], []), prec(plain, "C", [])], ts_tags(tp) + ["boundary"]))
+    for n in ((64, 65, 66, 130) if full else (65,)):
+        out.append(("count-%d" % n, [prec(plain, "C", []) for _ in range(n)], ["boundary"]))
     sizes = [70000, 65536] if tier == "quick" else [65535, 65536, 65537, 70000, 140000]
     for n in sizes:
         out.append(("big-value-rep-%d" % n, [prec((lit("k"), rep(120, n)), "C", hs[-1])], ["big"]))
@@ -640,6 +653,22 @@ def run_driver(ctx, cases, tag, par=24):
     lp = os.path.join(ctx.work, "rec-lines-%s.ndjson" % tag)
     write_ndjson(cp, cases)
     p = ctx.run_vh(["records", "-cases", cp, "-out", lp, "-par", str(par)], timeout=3000)
+    if p.returncode != 0 and ("panic:" in p.stderr or "fatal error:" in p.stderr) and len(cases) > 1:
+        # a panic in a goroutine of the library kills the driver: find the cases that cause it (halving), report each as a violation
+        first = [x for x in p.stderr.splitlines() if x.startswith("panic:") or x.startswith("fatal error:")][:1]
+        if par > 1:
+            lines, drv = run_driver(ctx, cases, tag + "s", par=1)      # deterministic order first
+            return lines, drv
+        half = len(cases) // 2
+        l1, d1 = run_driver(ctx, cases[:half], tag + "a", par=1)
+        l2, d2 = run_driver(ctx, cases[half:], tag + "b", par=1)
+        return l1 + l2, d1 or d2
+    if p.returncode != 0 and ("panic:" in p.stderr or "fatal error:" in p.stderr):
+        c = cases[0]
+        first = [x for x in p.stderr.splitlines() if x.startswith("panic:") or x.startswith("fatal error:")][:1]
+        rep = ctx.save_replay("panic-%s" % c["id"], [("case.json", json.dumps(c)), ("stderr.txt", p.stderr[-8000:])])
+        ctx.violation("the library panicked on case %s: %s" % (c["id"], first[0] if first else "panic"), rep, key="panic case=%s %s" % (c["id"], first[0] if first else ""))
+        return [dict(id=c["id"], dir=c.get("dir", ""), tags=c.get("tags", []), err="panic", died=True)], {}
     if p.returncode != 0:
         raise Inconclusive("vh records failed: " + (p.stderr or p.stdout)[-2000:])
     lines = read_ndjson(lp)
